@@ -1020,6 +1020,13 @@ def wl_mutex() -> Workflow:
     )
 
 
+def wl_mutex_hold(n: int) -> Workflow:
+    """r -> {m1 (polls n times while holding the mutex), m2 (same mutex key)} -> z: how long the waiter waits is n."""
+    return workflow(
+        [stage("r"), stage("m1", ["r"], tasks={"t1": {"kind": "poll", "n": n}}, mutex_key="k"), stage("m2", ["r"], mutex_key="k"), stage("z", ["m1", "m2"])]
+    )
+
+
 def wl_choice() -> Workflow:
     return workflow(
         [
@@ -1102,7 +1109,9 @@ def wl_synthetic(kind: str) -> Workflow:
     return wf
 
 
+MUTEX_HOLD_MAX = 64
 WORKLOADS: dict[str, Callable[[], Workflow]] = {
+    **{"mutex_hold_%d" % n: (lambda n=n: wl_mutex_hold(n)) for n in range(0, MUTEX_HOLD_MAX + 1)},
     "chain2": lambda: wl_chain(2),
     "chain3": lambda: wl_chain(3),
     "diamond": wl_diamond,
